@@ -404,6 +404,89 @@ func runC15(w *World, r *Report) {
 		}
 	}
 
+	// ---- map keys: what the static check accepts, every run-time site accepts too
+	r.Rule("C15.map-key-criterion", "the static path check is at least as strict about map key types as every run-time site that descends into / writes a map key (exact string <= assignable-from-string <= kind string)", 3)
+	{
+		// strictness: 0 exact string type, 1 string assignable to the key type, 2 key kind is string, -1 not found
+		classify := func(fn *ssa.Function) (int, token.Pos) {
+			best, pos := -1, token.NoPos
+			instrs(fn, func(in ssa.Instruction) {
+				switch x := in.(type) {
+				case *ssa.BinOp:
+					if x.Op != token.NEQ && x.Op != token.EQL {
+						return
+					}
+					for _, pr := range [][2]ssa.Value{{x.X, x.Y}, {x.Y, x.X}} {
+						c, ok := pr[0].(*ssa.Call)
+						if !ok || !c.Call.IsInvoke() {
+							continue
+						}
+						if c.Call.Method.Name() == "Key" {
+							// Key() compared with a reflect.Type value: identity with the string type
+							if _, isC := pr[1].(*ssa.Const); !isC && best < 0 {
+								best, pos = 0, x.Pos()
+							}
+						}
+						if c.Call.Method.Name() == "Kind" {
+							if kc, ok := c.Call.Value.(*ssa.Call); ok && kc.Call.IsInvoke() && kc.Call.Method.Name() == "Key" {
+								if k, ok := constInt(pr[1]); ok && k == int64(reflect.String) && best < 2 {
+									best, pos = 2, x.Pos()
+								}
+							}
+						}
+					}
+				case *ssa.Call:
+					if x.Call.IsInvoke() && x.Call.Method.Name() == "AssignableTo" && len(x.Call.Args) == 1 {
+						if kc, ok := x.Call.Args[0].(*ssa.Call); ok && kc.Call.IsInvoke() && kc.Call.Method.Name() == "Key" && best < 1 {
+							best, pos = 1, x.Pos()
+						}
+					}
+				}
+			})
+			return best, pos
+		}
+		names := []string{"exact string type", "string assignable to the key type", "key kind is string"}
+		static, spos := classify(w.Fn("compose", "checkAndExtractFieldType"))
+		if static < 0 {
+			r.Fail("C15.map-key-criterion", "checkAndExtractFieldType tests the map key type", w.Fn("compose", "checkAndExtractFieldType").Pos(), "no test of the map key type in the static path walk")
+		}
+		for _, n := range []string{"checkAndExtractFromMapKey", "checkAndExtractToMapKey", "assignOne"} {
+			f := w.Fn("compose", n)
+			rt, rpos := classify(f)
+			if rt < 0 {
+				r.Fail("C15.map-key-criterion", n+" tests the map key type", f.Pos(), "no test of the map key type at this run-time site")
+				continue
+			}
+			if static >= 0 {
+				_ = spos
+				r.Check(static <= rt, "C15.map-key-criterion", "static check vs "+n, rpos, "static: "+names[static]+"; run time: "+names[rt],
+					"the static check accepts map key types ("+names[static]+") that this run-time site rejects ("+names[rt]+"): a path through e.g. map[Lang]V with `type Lang string` compiles and then every run panics ('convertTo failed when must succeed') or fails")
+			}
+		}
+	}
+
+	// ---- intermediates are created once: an existing pointer / map on a target path is never replaced
+	r.Rule("C15.instantiate-once", "instantiateIfNeeded sets a pointer / map field only when it is nil", 2)
+	{
+		iin := w.Fn("compose", "instantiateIfNeeded")
+		n := 0
+		instrs(iin, func(in ssa.Instruction) {
+			c, ok := in.(*ssa.Call)
+			if !ok || calleeFullName(c) != "(reflect.Value).Set" {
+				return
+			}
+			n++
+			g := hasGuard(c.Block(), func(g guard) bool {
+				gc, ok := g.cond.(*ssa.Call)
+				return ok && g.pol && calleeFullName(gc) == "(reflect.Value).IsNil" && valueAlias(gc.Call.Args[0], c.Call.Args[0])
+			})
+			r.Check(g, "C15.instantiate-once", fmt.Sprintf("instantiateIfNeeded: Set #%d only under IsNil()", n), c.Pos(), "guarded by field.IsNil()", "an intermediate pointer / map on a target path is re-created although it already exists: the first of two sibling mappings below it is wiped by the second")
+		})
+		if n < 2 {
+			r.Fail("C15.instantiate-once", "instantiateIfNeeded creates missing intermediates", iin.Pos(), fmt.Sprintf("%d Set calls (pointer and map arms expected)", n))
+		}
+	}
+
 	// ---- the run-time checker looks only at keys the value carries
 	r.Rule("C15.checker-present-keys", "validateFieldMapping's combined checker invokes a per-field checker only for a key that is present in the mapped value (a streamed chunk may lack keys)", 1)
 	checkerPresentKeys(w, r, "C15.checker-present-keys")
